@@ -19,6 +19,7 @@ func init() {
 			"(R2) that terminal call terminates the stream, so the connection reader cannot stay parked in packetBuffer.Put for a stream nobody reads — the CloseSend path does not (known finding D8); " +
 			"(R3) the reader parks waiting for a stream to be created only for the id whose invoke it forwarded itself; " +
 			"(R5) every packet received from the invoke queue is acknowledged exactly once; " +
+			"(R6) the reader has already recorded the stream id of a forwarded invoke and parks the stream's next packet until that stream exists (R3), so NewServerStream creates a stream for every invoke it takes from the queue or returns: it never goes back to waiting with an invoke consumed; " +
 			"plus shared pairing/finish rules (C02.R6, C02.R3, C03.R4, C03.R5, C03.R6).",
 		NotDecided:  "completion of the probe RPC for all client/handler programs and cancel points (behavioural).",
 		Assumptions: []string{"handlers return (the library cannot bound a handler)"},
@@ -27,6 +28,7 @@ func init() {
 			{ID: "C06.R2", Doc: "the server's end-of-RPC call terminates the stream on every path (closing the receive buffer)", Run: c06r2},
 			{ID: "C06.R3", Doc: "manageReader parks in streamBuffer.Wait only for the stream id of an invoke it forwarded", Run: c06r3},
 			{ID: "C06.R5", Doc: "NewServerStream: each receive from m.pkts is followed by exactly one pdone.Send before the next receive or return", Run: c06r5},
+			{ID: "C06.R6", Doc: "NewServerStream: an invoke taken from the queue always leads to newStream (or a return): it is never dropped in favour of the next packet", Run: c06r6},
 			{ID: "C06.S1", Alias: "C02.R6"},
 			{ID: "C06.S2", Alias: "C02.R3"},
 			{ID: "C06.S3", Alias: "C03.R4"},
@@ -476,4 +478,85 @@ func c06r5(c *an.Ctx) {
 		}
 	})
 	c.Floor("reads of pkt.Data in NewServerStream", 1, nUse)
+}
+
+func c06r6(c *an.Ctx) {
+	a := A(c)
+	sv := c.Fn("drpcmanager", "(*Manager).NewServerStream")
+	pkts := a.field("drpcmanager", "Manager", "pkts")
+	kindF := a.field("drpcwire", "Packet", "Kind")
+	newStream := a.obj("drpcmanager", "(*Manager).newStream")
+	kInvoke := pkgConstInt(c, "drpcwire", "KindInvoke")
+	isKind := func(v ssa.Value) bool { return isLoadOfField(v, kindF) }
+	isInvoke := func(v ssa.Value) bool { k, ok := an.ConstInt(v); return ok && k == kInvoke }
+	learn := func(st string, cond ssa.Value, val bool) (string, bool) {
+		cnd, neg := an.StripNot(cond)
+		g := an.Guard{Cond: cnd, True: val != neg}
+		cmp, ok := an.CmpOf(g)
+		if !ok || (st != "got" && st != "invoke" && st != "other") {
+			return st, true
+		}
+		isConst := func(v ssa.Value) bool { _, isK := an.ConstInt(v); return isK }
+		switch {
+		case cmp.Is(token.EQL, isKind, isInvoke):
+			if st == "other" {
+				return st, false
+			}
+			return "invoke", true
+		case cmp.Is(token.NEQ, isKind, isInvoke), cmp.Is(token.EQL, isKind, isConst):
+			// not an invoke (the kind differs from it, or equals another constant)
+			if st == "invoke" {
+				return st, false
+			}
+			return "other", true
+		}
+		return st, true
+	}
+	flow := &an.Flow{Fn: sv, Inline: an.InlineSamePackage(sv), Init: []string{"idle"},
+		Step: func(st string, in ssa.Instruction) []string {
+			if call, ok := in.(*ssa.Call); ok && an.IsCallTo(call.Common(), newStream) {
+				return []string{"made"}
+			}
+			return nil
+		},
+		Branch: func(st string, br *ssa.If, idx int) (string, bool) {
+			if sc, ok := an.SelectBranch(br, idx); ok {
+				s := sc.State()
+				if s.Dir == types.RecvOnly && isLoadOfField(s.Chan, pkts) {
+					return "got", true
+				}
+			}
+			return learn(st, br.Cond, idx == 0)
+		},
+		OnFact: learn,
+	}
+	res := flow.Run()
+	if res.Blowup {
+		c.Undecided("NewServerStream: state space too large")
+		return
+	}
+	n, nInv := 0, 0
+	an.Instrs(sv, func(in ssa.Instruction) {
+		if !res.Reachable(in.Block()) {
+			return
+		}
+		switch in.(type) {
+		case *ssa.Select:
+			for _, st := range res.Before(in) {
+				n++
+				c.Check(st != "invoke", "NewServerStream | an invoke taken from the queue is turned into a stream before the next packet is awaited", c.At(in), "",
+					"NewServerStream goes back to waiting after consuming an invoke without creating its stream: the reader has recorded that stream id and parks the stream's next packet in streamBuffer.Wait for a stream that never comes; the connection stops reading")
+			}
+		case *ssa.Call:
+			if call := in.(*ssa.Call); an.IsCallTo(call.Common(), newStream) {
+				for _, st := range res.Before(in) {
+					if st == "invoke" {
+						nInv++
+					}
+				}
+			}
+		}
+	})
+	c.Floor("select points in NewServerStream", 1, n)
+	c.Floor("newStream calls for a dequeued invoke", 1, nInv)
 }
